@@ -13,6 +13,8 @@ import bounded.packing_validate  # noqa: E402
 import bounded.qap  # noqa: E402
 import bounded.tsplib  # noqa: E402
 import bounded.order1d  # noqa: E402
+import bounded.bp_lower_bound  # noqa: E402
+import contracts.bp_instance  # noqa: E402
 import contracts.order1d  # noqa: E402
 import contracts.tsplib  # noqa: E402
 import contracts.control  # noqa: E402
@@ -172,6 +174,20 @@ PLANS["C20"] = Plan(
                  "termination of the cycle walk not proved"],
 )
 
+PLANS["C03"] = Plan(
+    "C03", "other",
+    functions=["moptipyapps.binpacking2d.instance:Instance.__new__"],
+    bounded=[bounded.bp_lower_bound.harness],
+    explanation="proved (Hoare triple on the real statement block of Instance.__new__ from `bin_area = ...` to "
+                "`obj.lower_bound_bins = ...`): the geometric bound is the exact ceiling of total item area / bin area and the "
+                "stored bound is max(geometric, DAMV), hence at least the area bound. 'at most the optimum' rests on the "
+                "Dell'Amico-Martello-Vigo theorem (A2, assumed) and is backed by a bounded harness with instances whose optimum "
+                "is known by construction",
+    assumptions=["A2: the DAMV bound L(q) is a valid lower bound for 2D bin packing with rotation (theorem, not proved here)",
+                 "item_area = sum of w*h*repetitions (item loop of __new__): not under contract"],
+    trusted=["assumed contracts of check_int_range and _lower_bound_damv (result >= 1)"],
+)
+
 PLANS["C14"] = Plan(
     "C14", "proof",
     functions=[E1 + ":__move_down", E1 + ":__move_left", E1 + ":_decode",
@@ -209,6 +225,10 @@ PLANS["C05"] = Plan(
 
 
 META = {
+    "C03": {"text": "arithmetic of the bound proved on the real statement block (exact ceiling, maximum, >= area bound); validity "
+                    "of the DAMV bound is an assumed theorem, backed by instances with optimum known by construction",
+            "note": "level 'other': proof for the arithmetic clauses + assumption A2 + bounded harness",
+            "technique": "contract-based deductive verification (Hoare triple on a statement block) + bounded monitor"},
     "C20": {"text": "swap_distance proved memory-safe with result in [0, n]; equality with the minimum number of transpositions "
                     "decided exhaustively up to length 6/7 by breadth-first search; ordering-instance clauses by a bounded harness",
             "note": "level 'other': proof + exhaustive enumeration within the quantifier's own bound + sampling",
